@@ -1135,7 +1135,234 @@ fn gen_noops(g: &mut Gen) {
     }
 }
 
+/// (a) Allocation history.  Every resizing operation at every index on the same matrix reached
+/// with different allocation histories: an exactly fitting Vec, a Vec built with spare capacity
+/// (`cap=`, through from_flat_row_major / row / column), and storage left over-allocated by
+/// remove_row, remove_column and retain_mut.  The model knows nothing about capacity: all routes
+/// must give its one answer.  Operations are applied directly (a clone would re-allocate).
+fn gen_capacity(g: &mut Gen) {
+    let mut counter = 50u64;
+    for r in 1..=3usize {
+        for c in 1..=3usize {
+            let s0 = Size { r, c };
+            let vals = seq(r * c);
+            // the ways to arrive at the matrix 1..=r*c of size r x c
+            let mut routes: Vec<(&str, Vec<String>)> = vec![
+                ("exact", vec![format!("@ flat {} {} {}", r, c, vals)]),
+                ("cap1", vec![format!("@ flat {} {} {} cap=1", r, c, vals)]),
+                ("cap_many", vec![format!("@ flat {} {} {} cap={}", r, c, vals, 2 * (r + c) + 3)]),
+            ];
+            if r == 1 {
+                routes.push(("row_cap", vec![format!("@ row {} cap={}", vals, c + 2)]));
+            }
+            if c == 1 {
+                routes.push(("column_cap", vec![format!("@ column {} cap={}", vals, r + 2)]));
+            }
+            // (r+1) x c with a junk last row, removed
+            let mut bigger: Vec<u64> = (1..=(r * c) as u64).collect();
+            bigger.extend(std::iter::repeat(99).take(c));
+            routes.push((
+                "after_remove_row",
+                vec![format!("@ flat {} {} {}", r + 1, c, show_vals(&bigger)), format!("remove_row {}", r)],
+            ));
+            // r x (c+1) with a junk last column, removed
+            let wide: Vec<u64> = (0..r)
+                .flat_map(|i| (0..=c).map(move |j| if j == c { 99 } else { (i * c + j + 1) as u64 }))
+                .collect();
+            routes.push((
+                "after_remove_column",
+                vec![format!("@ flat {} {} {}", r, c + 1, show_vals(&wide)), format!("remove_column {}", c)],
+            ));
+            // (r+1) x (c+1), retained
+            let both: Vec<u64> = (0..=r)
+                .flat_map(|i| (0..=c).map(move |j| if j == c || i == r { 99 } else { (i * c + j + 1) as u64 }))
+                .collect();
+            routes.push((
+                "after_retain_mut",
+                vec![
+                    format!("@ flat {} {} {}", r + 1, c + 1, show_vals(&both)),
+                    format!("retain_mut rows=range(0,{}) cols=not(single({}))", r, c),
+                ],
+            ));
+            // the resizing operations at every index
+            let mut ops: Vec<GOp> = vec![];
+            for p in 0..=r + 1 {
+                ops.push(GOp::InsertRow(p, fresh(&mut counter, 1)[0]));
+                ops.push(GOp::InsertRowWith(p, fresh(&mut counter, c)));
+                ops.push(GOp::RemoveRow(p));
+            }
+            for p in 0..=c + 1 {
+                ops.push(GOp::InsertColumn(p, fresh(&mut counter, 1)[0]));
+                ops.push(GOp::InsertColumnWith(p, fresh(&mut counter, r)));
+                ops.push(GOp::RemoveColumn(p));
+            }
+            ops.push(GOp::InsertRowWith(0, fresh(&mut counter, c + 2)));
+            ops.push(GOp::InsertColumnWith(c, fresh(&mut counter, r.saturating_sub(1))));
+            ops.push(GOp::Retain(true, Sl::Not(Box::new(Sl::Single(0))), Sl::All));
+            ops.push(GOp::Retain(true, Sl::All, Sl::Range(0, 1)));
+            ops.push(GOp::TransposeMut);
+            ops.push(GOp::MapMutWithIndex(100));
+            for op in &ops {
+                for (name, start) in &routes {
+                    for l in start {
+                        g.op(l.clone());
+                    }
+                    g.count(&format!("capacity.route.{}", name));
+                    count_op(g, op, s0, "capacity");
+                    g.op(op.line());
+                    let mut s = op.after(s0);
+                    // grow twice more (past any spare capacity), then shrink
+                    for follow in [
+                        GOp::InsertRow(s.r, fresh(&mut counter, 1)[0]),
+                        GOp::InsertColumnWith(0, fresh(&mut counter, s.r + 1)),
+                        GOp::RemoveRow(0),
+                    ] {
+                        g.op(follow.line());
+                        s = follow.after(s);
+                    }
+                }
+            }
+        }
+    }
+}
+
+/// (b) Shared supply: one iterator lent to a sequence of `_with` insertions (row-then-column,
+/// column-then-row, row-row, column-column, three steps), with exactly enough, one too few, one
+/// too many, plenty and no values, through every iterator kind; what the iterator yields
+/// afterwards is observed ("consumed from the front, exactly as many as used").
+fn gen_shared_supply(g: &mut Gen) {
+    let mut counter = 50u64;
+    let mut k = 0usize;
+    for r in 1..=3usize {
+        for c in 1..=3usize {
+            let patterns: Vec<Vec<bool>> = vec![
+                vec![true, false],
+                vec![false, true],
+                vec![true, true],
+                vec![false, false],
+                vec![true, false, true],
+                vec![false, true, false],
+            ];
+            for pattern in patterns {
+                // the values needed if every step succeeds, and the positions (last, first, …)
+                let mut s = Size { r, c };
+                let mut need = 0usize;
+                let mut steps: Vec<String> = vec![];
+                for (i, is_row) in pattern.iter().enumerate() {
+                    if *is_row {
+                        need += s.c;
+                        steps.push(format!("row:{}", if i % 2 == 0 { s.r } else { 0 }));
+                        s = Size { r: s.r + 1, c: s.c };
+                    } else {
+                        need += s.r;
+                        steps.push(format!("col:{}", if i % 2 == 0 { 0 } else { s.c }));
+                        s = Size { r: s.r, c: s.c + 1 };
+                    }
+                }
+                for n in [need, need - 1, need + 1, need + 4, 0, need / 2] {
+                    k += 1;
+                    let kind = ITER_KINDS[k % ITER_KINDS.len()];
+                    let l = start_line(g, r, c, k % 3);
+                    g.op(l);
+                    let vs = fresh(&mut counter, n);
+                    g.op(format!("shared {} via={} {}", show_vals(&vs), kind, steps.join(" ")));
+                    g.count(&format!(
+                        "shared.{}.{}",
+                        pattern.iter().map(|b| if *b { "r" } else { "c" }).collect::<String>(),
+                        if n >= need { if n == need { "exact" } else { "surplus" } } else { "short" }
+                    ));
+                    g.count(&format!("shared.kind.{}", kind));
+                    // an invalid position in the middle must not consume anything
+                    if n == need + 4 {
+                        g.op(format!(
+                            "shared {} via={} row:99 col:0 col:99 row:0",
+                            show_vals(&fresh(&mut counter, 12)),
+                            kind
+                        ));
+                        g.count("shared.invalid_position_between");
+                    }
+                    g.op("transpose_mut".to_string());
+                    g.op("remove_row 0".to_string());
+                }
+            }
+        }
+    }
+}
+
+/// (c) The slice algebra: reversed, empty, out-of-range and overlapping ranges under
+/// not / and / or to depth 3; `accepts` point by point against the set semantics, `Slice2D` on a
+/// grid, and the same slices as retentions.
+fn gen_slice_algebra(g: &mut Gen) {
+    let atoms: Vec<Sl> = vec![
+        Sl::All,
+        Sl::None,
+        Sl::Single(0),
+        Sl::Single(2),
+        Sl::Single(7),
+        Sl::Range(0, 2),
+        Sl::Range(1, 3),
+        Sl::Range(2, 2),
+        Sl::Range(3, 1),
+        Sl::Range(2, 0),
+        Sl::Range(5, 9),
+        Sl::Range(1, usize::MAX),
+        Sl::Range(usize::MAX, 0),
+    ];
+    let mut level1: Vec<Sl> = vec![];
+    for a in &atoms {
+        level1.push(Sl::Not(Box::new(a.clone())));
+        for b in &atoms {
+            level1.push(Sl::And(Box::new(a.clone()), Box::new(b.clone())));
+            level1.push(Sl::Or(Box::new(a.clone()), Box::new(b.clone())));
+        }
+    }
+    let mut all: Vec<Sl> = atoms.clone();
+    all.extend(level1.iter().cloned());
+    // depth 2 and 3: sampled combinations of lower levels
+    let deeper = if g.thorough { 4000 } else { 500 };
+    let mut level2: Vec<Sl> = vec![];
+    for i in 0..deeper {
+        let pool: &Vec<Sl> = if i % 2 == 0 || level2.is_empty() { &level1 } else { &level2 };
+        let a = pool[g.rng.below(pool.len())].clone();
+        let b = if g.rng.chance(1, 2) { atoms[g.rng.below(atoms.len())].clone() } else { level1[g.rng.below(level1.len())].clone() };
+        let sl = match g.rng.below(3) {
+            0 => Sl::Not(Box::new(a)),
+            1 => Sl::And(Box::new(a), Box::new(b)),
+            _ => Sl::Or(Box::new(b), Box::new(a)),
+        };
+        level2.push(sl.clone());
+        all.push(sl);
+    }
+    fn depth(s: &Sl) -> usize {
+        match s {
+            Sl::Not(a) => 1 + depth(a),
+            Sl::And(a, b) | Sl::Or(a, b) => 1 + depth(a).max(depth(b)),
+            _ => 0,
+        }
+    }
+    g.op("@ new 4x4 via=flat".to_string());
+    for (i, sl) in all.iter().enumerate() {
+        g.count(&format!("slice.depth={}", depth(sl).min(4)));
+        g.op(format!("accepts {} 6", sl.show()));
+        if i % 3 == 0 {
+            let other = &all[(i * 7 + 3) % all.len()];
+            g.op(format!("accepts2d rows={} cols={} 4 5", sl.show(), other.show()));
+            g.count("slice.accepts2d");
+        }
+        // as a retention of the rows and of the columns of the 4x4 matrix (on a clone)
+        if i % 2 == 0 {
+            g.op(format!("try retain_mut rows={} cols=all", sl.show()));
+        } else {
+            g.op(format!("try retain rows=not(single(3)) cols={}", sl.show()));
+        }
+        g.count("slice.as_retention");
+    }
+}
+
 pub fn gen(g: &mut Gen) {
+    gen_capacity(g);
+    gen_shared_supply(g);
+    gen_slice_algebra(g);
     gen_panicking_user_code(g);
     gen_degenerate(g);
     gen_noops(g);
@@ -1157,6 +1384,25 @@ pub struct Runner {
 
 fn parse_vals(s: &str) -> Vec<u64> {
     split_comma(s).iter().map(|t| t.parse::<u64>().expect("u64")).collect()
+}
+
+/// the values in a `Vec` with `cap=<k>` spare capacity (exactly fitting when absent): the
+/// allocation history the model knows nothing about
+fn vals_with_capacity(s: &str, toks: &[&str]) -> Vec<u64> {
+    let vals = parse_vals(s);
+    match opt_arg("cap", toks) {
+        Some(k) => {
+            let k: usize = k.parse().expect("cap");
+            let mut v = Vec::with_capacity(vals.len() + k);
+            v.extend_from_slice(&vals);
+            v
+        }
+        None => {
+            let mut v = vals;
+            v.shrink_to_fit();
+            v
+        }
+    }
 }
 
 /// `data.len()`, read off the `Debug` output (`Matrix { data: [..], rows: .., columns: .. }`)
@@ -1581,15 +1827,15 @@ impl Runner {
                 }
                 "flat" => {
                     let (r, c): (usize, usize) = (toks[2].parse().unwrap(), toks[3].parse().unwrap());
-                    let vals = parse_vals(toks[4]);
+                    let vals = vals_with_capacity(toks[4], toks);
                     self.construct(catch(|| Matrix::from_flat_row_major((r, c), vals)))
                 }
                 "row" => {
-                    let vals = parse_vals(toks[2]);
+                    let vals = vals_with_capacity(toks[2], toks);
                     self.construct(catch(|| Matrix::row(vals)))
                 }
                 "column" => {
-                    let vals = parse_vals(toks[2]);
+                    let vals = vals_with_capacity(toks[2], toks);
                     self.construct(catch(|| Matrix::column(vals)))
                 }
                 "scalar" => {
@@ -1622,10 +1868,78 @@ impl Runner {
                 _ => "bad-op".into(),
             };
         }
+        if toks[0] == "accepts" {
+            let sl = parse_slice(toks[1]);
+            let n: usize = toks[2].parse().expect("n");
+            let built = sl.build();
+            let set: Vec<u64> = (0..n).filter(|i| built.accepts(*i)).map(|i| i as u64).collect();
+            return format!("set={}", show_vals(&set));
+        }
+        if toks[0] == "accepts2d" {
+            let rs = parse_slice(opt_arg("rows", toks).expect("rows="));
+            let cs = parse_slice(opt_arg("cols", toks).expect("cols="));
+            let r: usize = toks[toks.len() - 2].parse().expect("R");
+            let c: usize = toks[toks.len() - 1].parse().expect("C");
+            let slice = slices::new().columns(cs.build()).rows(rs.build());
+            let grid: Vec<String> = (0..r)
+                .map(|i| (0..c).map(|j| if slice.accepts(i, j) { '1' } else { '0' }).collect())
+                .collect();
+            return format!("grid={}", grid.join(";"));
+        }
         let m = match self.m.as_mut() {
             Some(m) => m,
             None => return "no-matrix".into(),
         };
+        if toks[0] == "shared" {
+            // one iterator lent to a sequence of `_with` insertions, then drained
+            let vs = parse_vals(toks[1]);
+            let kind = opt_arg("via", toks).unwrap_or("vec");
+            let steps: Vec<(bool, usize)> = toks[2..]
+                .iter()
+                .filter_map(|t| {
+                    t.strip_prefix("row:")
+                        .map(|p| (true, p.parse::<usize>().expect("row:p")))
+                        .or_else(|| t.strip_prefix("col:").map(|p| (false, p.parse::<usize>().expect("col:p"))))
+                })
+                .collect();
+            let (outcomes, rest) = with_values_iter!(kind, vs, |it| {
+                let mut it = it;
+                let mut outcomes: Vec<bool> = vec![];
+                for (k, (is_row, p)) in steps.iter().enumerate() {
+                    // lent in both spellings
+                    let r = if *is_row {
+                        if k % 2 == 0 {
+                            catch(|| m.insert_row_with(*p, Iterator::by_ref(&mut it)))
+                        } else {
+                            catch(|| m.insert_row_with(*p, &mut it))
+                        }
+                    } else if k % 2 == 0 {
+                        catch(|| m.insert_column_with(*p, &mut it))
+                    } else {
+                        catch(|| m.insert_column_with(*p, Iterator::by_ref(&mut it)))
+                    };
+                    outcomes.push(r.is_err());
+                }
+                let rest = catch(|| it.collect::<Vec<u64>>());
+                (outcomes, rest)
+            });
+            let any_panic = outcomes.iter().any(|b| *b);
+            let (obs, len) = observe(m);
+            let steps_s: Vec<&str> = outcomes.iter().map(|b| if *b { "panic" } else { "ok" }).collect();
+            let rest_s = match &rest {
+                Ok(v) => show_vals(v),
+                Err(k) => format!("!{}", k.as_str()),
+            };
+            return format!(
+                "{} {} steps={} rest={} ## len={} rest={}",
+                if any_panic { "panic" } else { "ok" },
+                obs,
+                steps_s.join(","),
+                if any_panic { "?".to_string() } else { rest_s.clone() },
+                len,
+                rest_s
+            );
+        }
         if toks[0] == "scalar" && toks.len() == 1 {
             return match catch(|| m.scalar()) {
                 Ok(v) => format!("val={}", v),
